@@ -77,6 +77,13 @@ func runSolver(ctx context.Context, sd solverDef, timeout time.Duration, file st
 
 // discharge runs the race for one obligation. allAgree: run every solver to completion (thorough).
 func discharge(vc *VC, o *Obligation, dir string, timeout time.Duration, seed int) {
+	if strings.HasPrefix(o.Kind, "mustuse") && o.Goal == "false" {
+		// a syntactic obligation: the outcome of a read that can come up short is discarded at this call
+		o.Result = "sat"
+		o.Solver = "static"
+		o.Model = "the success/err result of the call at " + o.Pos + " is never inspected, so a stream that ends here is not noticed"
+		return
+	}
 	text := vc.render(o, true)
 	if seed != 0 {
 		text = fmt.Sprintf("(set-option :random-seed %d)\n", seed%1000000) + text
@@ -232,7 +239,7 @@ func firstLines(s string, n int) string {
 	return strings.Join(ls, "\n")
 }
 
-func dischargeAll(units []*UnitResult, dir string, timeout time.Duration, seed int, workers int) {
+func dischargeAll(units []*UnitResult, dir string, timeout time.Duration, seed int, workers int, prop string) {
 	type job struct {
 		vc *VC
 		o  *Obligation
@@ -243,6 +250,14 @@ func dischargeAll(units []*UnitResult, dir string, timeout time.Duration, seed i
 			continue
 		}
 		for _, o := range u.VC.obls {
+			if prop != "" && prop != "C01" && o.Vacuity && u.fc != nil && u.fc.FrameOnly {
+				o.Result = "skipped" // the unit contributes only syntactic must-use obligations to this property
+				continue
+			}
+			if prop != "" && !o.Vacuity && o.knownProbe == nil && !belongs(prop, u, o, o.props) {
+				o.Result = "skipped" // not an obligation of the property being decided
+				continue
+			}
 			jobs = append(jobs, job{u.VC, o})
 		}
 	}
